@@ -357,6 +357,17 @@ func nestDoc(form string, k int) (string, []byte) {
 	case "jsonset":
 		return "policy", []byte(`{"effect":"permit","principal":{"op":"All"},"action":{"op":"All"},"resource":{"op":"All"},"conditions":[{"kind":"when","body":` +
 			rep(`{"Set":[`, k) + rep("]}", k) + `}]}`)
+	case "jsonsetx", "jsonnotx", "jsonrecx":
+		// an expression object with a known key next to an unknown one, nested: decoders that retry an object as an
+		// extension call after an "unknown field" error decode the subtree twice per level
+		open, close := `{"Set":[`, `],"x":[]}`
+		if form == "jsonnotx" {
+			open, close = `{"!":{"arg":`, `},"x":[]}`
+		} else if form == "jsonrecx" {
+			open, close = `{"Record":{"a":`, `},"x":[]}`
+		}
+		return "policy", []byte(`{"effect":"permit","principal":{"op":"All"},"action":{"op":"All"},"resource":{"op":"All"},"conditions":[{"kind":"when","body":` +
+			rep(open, k) + `{"Value":1}` + rep(close, k) + `}]}`)
 	case "schemaset":
 		return "schematext", []byte("entity E { a: " + rep("Set<", k) + "Long" + rep(">", k) + " };")
 	case "schemarecord":
